@@ -48,10 +48,54 @@ from core import Eval
 PROPERTY = "C08"
 DRIVER = "drv_c08"
 PROPS = ["PartituraModel.Props.C08"]
-TRUSTED = []
-PARTIAL = []
-RULE = ""
-LEVEL_TEXT = ""
+TRUSTED = [
+    "C07 (line level): the text of a line <-> its fields; the correspondence reads the written text with its own "
+    "regular expressions and the reader's input with the real line parsers",
+    "'%.4f' rendering of a beat time and float() of that text = nearest multiple of 1/10000 (model: dec4, exact "
+    "rationals; beat times k/(4*divs) with divs <= 480 never sit on a x.00005 boundary)",
+    "binary64 arithmetic of part_from_matchfile (positions in quarters, divs*(...) before round/int) is modelled "
+    "exactly; the implementation's values are within 1e-9 of the exact ones and never near a rounding boundary "
+    "for divisions <= 4*480 (checked by the comparison, not proved)",
+    "seconds_to_midi_ticks / midi_ticks_to_seconds: binary64 product modelled exactly (C12)",
+    "numpy: np.unique(return_index) keeps first occurrences in order after np.sort(idx); np.lexsort and "
+    "list.sort are stable; np.lcm.reduce; np.isclose(a,b,atol) = |a-b| <= atol + 1e-5*|b|; np.searchsorted",
+    "scipy interp1d kind='previous' with fill values (first,last) and kind='linear' with extrapolation; the "
+    "performance-time -> score-time map is built from float32 note-array columns: the model uses the float32 "
+    "onsets exactly and exact means, keys are compared with tolerance 2e-4 and the order of the lines only "
+    "when no two keys involving an interpolated one are closer than 1e-3",
+    "Part.beat_map / time_signature_map / quarter_duration_map / iter_all of the score being written (C02, C10): "
+    "modelled as the piecewise-linear beat function with the pickup shift",
+    "score.add_measures / tie_notes / find_tuplets after the reconstruction (C11): only onsets, tied durations, "
+    "the importer's own measures and the signatures are compared",
+]
+PARTIAL = [
+    "bars_recovered_partial / onset_roundtrip_partial: the error bound of the reconstructed bar start is proved "
+    "for scores whose time signatures all share one beat type (any number of changes of the beat count); with "
+    "mixed beat types the beats->quarters map is compared, not proved",
+    "position_roundtrip assumes the reconstructed bar start is within 1/(2*divs) of the written one (discharged "
+    "by bars_recovered_partial) and that divs*(position in quarters) is integral (discharged by divs_sufficient "
+    "for offsets; for the bar start itself it is a hypothesis: first stored note of the piece on the division grid)",
+    "order of the written lines and get_time_maps_from_alignment (scipy interpolation over float32 columns): "
+    "compared only",
+    "bars without a stored note: the reader extends the previous measure over them (no measure is stored); the "
+    "score clause of the oracle is restricted to alignments that touch every bar between their first and last "
+    "stored note",
+    "FractionalSymbolicDuration.bound_integers (numerator or denominator > 1024) is outside the generated domain",
+    "additive duration components and tuple divisors occur only in the fixture files (compared, not proved)",
+]
+RULE = ("seeded random single-divs parts (13 division values, 13 time signatures, pickups, changes of time and key "
+        "signature at bar starts, 1-3 voices, 1-2 staves, chords, ties within and across bars, grace notes, rests, "
+        "articulations) x random performances (tick grid and off grid, 6 ppq x 6 mpq choices, sustain/soft/other "
+        "controllers incl. duplicates) x random alignments (match/deletion/omitted, insertions, ornaments, shuffled); "
+        "every 4th case is re-read after injecting duplicate / conflicting lines; plus the repository's match files. "
+        "distinct = distinct sub-seed (or file); non-trivial = a file was written and read")
+LEVEL_TEXT = ("Lean 4 theorems about an executable model of the match-file time arithmetic (exporter: measure:beat + "
+              "offset/duration fractions; importer: divisions = lcm of denominators, bar starts from the first note "
+              "of each bar, round(divs * position)), the reader's de-duplication rule and the alignment extraction, "
+              "for all inputs; the model is tied to the code by comparing, on generated scores/performances/"
+              "alignments and on the repository's match files, the written text (score fields, ticks, pedal lines, "
+              "line order) and the loaded part/performance/alignment with the model's output.")
+SEARCH_LIMIT = 1500
 
 REPO = os.environ.get("VERIF_REPO", "/repo")
 FIXDIR = os.path.join(REPO, "tests", "data", "match")
@@ -1090,6 +1134,26 @@ def evaluate(desc):
     if k == "dedup":
         return eval_dedup(desc, ev)
     return ev
+
+
+def distribution(descs, results):
+    from collections import Counter
+
+    c = Counter()
+    for d, r in zip(descs, results):
+        c["kind:" + d["k"]] += 1
+        info = r.get("info") or {}
+        for f in info.get("feats", []):
+            c["feat:" + f] += 1
+        if d["k"] == "rt":
+            c["covered" if info.get("covered") else "uncovered"] += 1
+            c["order_safe" if info.get("order_safe") else "order_unsafe"] += 1
+            c["divs:%d" % d["part"]["divs"]] += 1
+            for a in d["align"]:
+                c["label:" + a["label"]] += 1
+        if d["k"] == "dedup":
+            c["dedup_dropped:%s" % min(info.get("n_dropped", 0), 5)] += 1
+    return dict(sorted(c.items()))
 
 
 if __name__ == "__main__":
